@@ -57,6 +57,11 @@ type Scenario struct {
 	FinalStop string `json:"final_stop,omitempty"`
 	// KeepSnaps keeps raw store snapshots (C03).
 	KeepSnaps bool `json:"keep_snaps,omitempty"`
+	// Points: scheduling points of the repository (-tags verif) -> upper bound
+	// of the pseudo-random sleep injected at each hit, in microseconds ("*" =
+	// every point not listed). PointSeed determines the amounts.
+	Points    map[string]int `json:"points,omitempty"`
+	PointSeed int64          `json:"point_seed,omitempty"`
 }
 
 func CondTemplate(mod, rem int) string {
